@@ -1,5 +1,5 @@
 (* C05 -- Custom operators and token types integrate consistently.  Property theorems only. *)
-Require Import Base Token Tree Parser Registry ParserSpec RegistryProofs RenameProofs ClimbSpec ClimbProofs ClimbSpec2 ClimbProofs2 ClimbSpec3 ClimbProofs3 ClimbProofs3b.
+Require Import Base Token Tree Parser Registry ParserSpec RegistryProofs RenameProofs ClimbSpec ClimbProofs ClimbSpec2 ClimbProofs2 ClimbSpec3 ClimbProofs3 ClimbProofs3b RefutedOps.
 Require Import Gen.Tables.
 
 (* token ids: one stable id per name, distinct across names, above every built-in type *)
@@ -180,3 +180,13 @@ Theorem C05_grouping_unique_y : forall cfg c1 c2,
   yyield c1 = yyield c2 -> c1 = c2.
 Proof. exact ygroup_unique. Qed.
 Print Assumptions C05_grouping_unique_y.
+
+(* REFUTED CLAUSE (recorded finding KF18 as a theorem; witness evaluated by the kernel): an
+   infix operator registered at level 1 (= LOWEST, accepted by the builder) is never applied:
+   a @ b  with @ (token type 1000) at level 1 gives errors and no binary node. *)
+Theorem C05_level_one_never_binds_refuted :
+  exists r, parse_tokens (mkpcfg false false [] [] [] [(1000, 1)] []) kf18_toks = Some r /\
+            pr_errors r <> [] /\
+            forallb (fun s => match s with SExpr e => negb (has_binary e) | _ => true end) (p_stmts (pr_program r)) = true.
+Proof. exact kf18_level_one_never_binds_refuted. Qed.
+Print Assumptions C05_level_one_never_binds_refuted.
